@@ -114,3 +114,148 @@ package actor
 //@   ghost at call add#1 before: assert[C10.spawnproc.add] arg0 == e.Registry && arg1 == p
 //@   ensures[C10.spawnproc.pid] result == pidof(p)
 //@   ensures[C10.spawnproc.effects] (loglen == entry(loglen) + 2 && log[entry(loglen)] == RegAdd(e.Registry, pidof(p).ID, p) && log[entry(loglen) + 1] == ProcStart(p)) || (loglen == entry(loglen) + 1 && log[entry(loglen)] == Broadcast(e.Registry.engine, ActorDuplicateIdEvent{PID: pidof(p)}))
+
+// ---------------------------------------------------------------------------
+// Middleware (C13). wrap(mw, f) names the function a middleware returns for f;
+// mwchain(r, A, o, n, i) is the right fold of the middleware slice (backing
+// array A, offset o, length n) from position i around the receiver function r:
+//   mwchain(r, .., i) = r                                  if i >= n
+//                     = wrap(A[o+i], mwchain(r, .., i+1))   otherwise
+// so chainOf(r, mws) has mws[0] outermost and r innermost, each applied once.
+// The recursive definition is only ever instantiated by explicit `unfold`.
+
+//@ ghost func wrap(Ref, Ref) Ref
+//@ ghost func mwchain(Ref, (Array Int Ref), Int, Int, Int) Ref
+//@ ghost def mwchain(r, A, o, n, i) := ite(i >= n, r, wrap(A[sidx(o, i)], mwchain(r, A, o, n, i + 1)))
+//@ axiom[mwchain.base] forallS("Ref", r, forallS("(Array Int Ref)", A, forall(o, n, mwchain(r, A, o, n, n) == r, mwchain(r, A, o, n, n))))
+//@ pred chainOf(r, mws) := mwchain(r, elems(mws), mws.off, len(mws), 0)
+
+// A middleware applied to a receive function: assumed to run no engine code,
+// not to panic, and to return a non-nil function (named wrap(mw, next)).
+//@ functype MiddlewareFunc(next)
+//@   pure
+//@   ensures result == wrap(self, next) && result != nil
+
+//@ func applyMiddleware(rcv, middleware)
+//@   props C13
+//@   requires rcv != nil && forall(k, 0 <= k && k < len(middleware) ==> middleware[k] != nil)
+//@   modifies
+//@   ensures[C13.apply.fold] result == chainOf(rcv, middleware)
+//@   ensures[C13.apply.nonnil] result != nil
+//@   ghost at call middleware[i]#1 before: unfold mwchain(entry(rcv), elems(middleware), middleware.off, len(middleware), i)
+//@   loop 1
+//@     invariant[C13.apply.inv] -1 <= i && i < len(middleware) && rcv != nil && rcv == mwchain(entry(rcv), elems(middleware), middleware.off, len(middleware), i + 1)
+//@     decreases i + 1
+
+// ---------------------------------------------------------------------------
+// The process core (C04 C05 C06 C07 C13 C01): Start, Invoke, invokeMsg,
+// tryRestart, cleanup. These functions run thread-confined (on the inbox worker
+// or, for the first Start, on the spawning goroutine; that confinement is the
+// subject of C02 and is assumed here). Ghost state:
+//   curproc  the process whose method is being verified
+//   phase    protocol state of curproc's current incarnation (the receiver
+//            returned by the latest Producer call):
+//            0 produced, 1 Initialized delivered, 2 Started delivered,
+//            3 Stopped delivered / no live incarnation
+// The lifecycle protocol (C04), "pills are private" (C07) and "every delivery
+// goes through the middleware chain" (C13) are preconditions of the one
+// boundary through which a receiver is ever invoked: a call of a ReceiveFunc
+// value or of Receiver.Receive.
+
+//@ event Deliver(fn Ref, ctx Ref as *Context, msg Iface, sender Ref as *PID)
+//@ event Produce(p Ref as *process)
+//@ event Cancel(f Ref)
+//@ event InboxStart(in Iface, proc Iface)
+//@ event InboxStop(in Iface)
+//@ event InboxSend(in Iface, msg Iface, sender Ref as *PID)
+//@ event RegRemove(r Ref, id Str)
+//@ event PoisonSent(e Ref, pid Ref as *PID, ctx Iface)
+//@ event Waited(ch Ref)
+//@ event ChildUnlink(m Ref, id Str)
+
+//@ ghost var curproc Ref as *process
+//@ ghost var phase Int
+
+//@ pred procInv(p) := p != nil && p.context != nil && p.context.engine != nil && p.context.engine.Registry != nil && p.context.engine.Registry.engine != nil &&
+//@      !isnil(p.inbox) && p.context.children != nil && p.pid != nil && p.context.pid == p.pid &&
+//@      forall(k, 0 <= k && k < len(p.Opts.Middleware) ==> p.Opts.Middleware[k] != nil)
+//@ pred throughChain(fnv, c) := c == curproc.context && fnv == chainOf(boundmethod(c.receiver, "Receive"), curproc.Opts.Middleware)
+//@ pred isLifecycle(m) := istype(m, Initialized) || istype(m, Started) || istype(m, Stopped)
+//@ pred phaseAfter(m, ph) := ite(istype(m, Initialized), 1, ite(istype(m, Started), 2, ite(istype(m, Stopped), 3, ph)))
+
+// A receive function value invoked with a context: user code. It may panic
+// (except when handling Stopped: assumption), may call the exported API, and
+// cannot write the engine's private fields.
+//@ functype ReceiveFunc(c)
+//@   requires[C13.delivery.through-chain] throughChain(self, c)
+//@   requires[C07.pill.private] !istype(c.message, poisonPill)
+//@   requires[C04.protocol.initialized-first] istype(c.message, Initialized) ==> phase == 0
+//@   requires[C04.protocol.started-second] istype(c.message, Started) ==> phase == 1
+//@   requires[C04.protocol.stopped-once] istype(c.message, Stopped) ==> phase == 1 || phase == 2
+//@   requires[C04.protocol.user-after-started] !isLifecycle(c.message) ==> phase == 2
+//@   modifies heap except private, phase
+//@   maypanic
+//@   emits Deliver(self, c, c.message, c.sender)
+//@   ensures phase == phaseAfter(c.message, old(phase))
+//@   ensures_panic phase == phaseAfter(c.message, old(phase)) && !istype(c.message, Stopped)
+
+//@ func (Receiver).Receive(c)
+//@   abstract
+//@   requires[C13.delivery.through-chain] throughChain(boundmethod(self, "Receive"), c)
+//@   requires[C07.pill.private] !istype(c.message, poisonPill)
+//@   requires[C04.protocol.initialized-first] istype(c.message, Initialized) ==> phase == 0
+//@   requires[C04.protocol.started-second] istype(c.message, Started) ==> phase == 1
+//@   requires[C04.protocol.stopped-once] istype(c.message, Stopped) ==> phase == 1 || phase == 2
+//@   requires[C04.protocol.user-after-started] !isLifecycle(c.message) ==> phase == 2
+//@   modifies heap except private, phase
+//@   maypanic
+//@   emits Deliver(boundmethod(self, "Receive"), c, c.message, c.sender)
+//@   ensures phase == phaseAfter(c.message, old(phase))
+//@   ensures_panic phase == phaseAfter(c.message, old(phase)) && !istype(c.message, Stopped)
+
+// The producer: user code returning a fresh receiver (assumed non-nil, not to
+// panic). A new incarnation may only be produced when the previous one is gone.
+//@ functype Producer()
+//@   requires[C04.produce.previous-stopped] phase == 3
+//@   modifies heap except private, phase
+//@   emits Produce(curproc)
+//@   ensures !isnil(result) && phase == 0
+
+//@ functype context.CancelFunc()
+//@   modifies
+//@   emits Cancel(self)
+
+//@ func (Inboxer).Start(proc)
+//@   abstract
+//@   requires[C04.inbox.opened-only-for-live-actor] phase == 2
+//@   modifies
+//@   emits InboxStart(self, proc)
+
+//@ func (Inboxer).Stop()
+//@   abstract
+//@   modifies
+//@   emits InboxStop(self)
+
+//@ func (Inboxer).Send(env)
+//@   abstract
+//@   modifies
+//@   emits InboxSend(self, env.Msg, env.Sender)
+
+//@ func (*Engine).Poison(pid)
+//@   trusted
+//@   modifies
+//@   emits_ok PoisonSent(e, pid, result)
+//@   ensures !isnil(result)
+
+//@ func (*Context).Children()
+//@   trusted
+//@   modifies
+//@   ensures fresh(result)
+
+//@ func (*process).cleanup(cancel)
+//@   props C06 C07 C13 C04 C08
+//@   requires procInv(p) && curproc == p && !isnil(p.context.receiver)
+//@   requires[C04.cleanup.live] phase == 1 || phase == 2
+//@   nopanic[C06.cleanup.nopanic]
+//@   modifies heap except private, p.context.message, phase, log, loglen
+//@   ensures[C04.cleanup.stopped] phase == 3
